@@ -898,3 +898,96 @@ def prog_illformed(seed: int, n_ops: int = 5) -> G:
     for p in pool:
         g.emit(["show", p])
     return g
+
+
+def prog_range_enum(chunk: int, nchunks: int) -> G:
+    """Every range with |start|,|stop| <= 4, 0 < |step| <= 3, against every member value -5..5 (C12)."""
+    g = G(0)
+    g.engine("e0", "iter")
+    i = 0
+    for start in range(-4, 5):
+        for stop in range(-4, 5):
+            for step in (-3, -2, -1, 1, 2, 3):
+                i += 1
+                if i % nchunks != chunk:
+                    continue
+                for v in range(-5, 6):
+                    g.emit(["pred", ["in", ["ref", "a"], ["range", start, stop, step]], ["a", v], ["b", 0]])
+    return g
+
+
+def prog_conform(seed: int, n_ops: int = 7) -> G:
+    """Raw SQL-engine trees assembled bottom-up WITHOUT the engine, then conformed; plus
+    API-built trees conformed again (C17)."""
+    g = G(seed, max_rows=4)
+    rng = g.rng
+    g.engine("e0", "sql")
+    raws: list[str] = []
+    for _ in range(rng.choice([2, 3])):
+        leaf = g.leaf("e0", cols=sorted(rng.sample(BASE_COLS, rng.choice([1, 2, 3]))))
+        r = g.fresh()
+        g.emit(["unwrap", r, leaf])
+        g.cols[r] = g.cols[leaf]
+        g.eng[r] = "e0"
+        g.leaves_of[r] = g.leaves_of[leaf]
+        raws.append(r)
+    api: list[str] = [x for x in g.cols if x not in raws]
+    for _ in range(n_ops):
+        k = rng.random()
+        if k < 0.6:
+            t = rng.choice(raws)
+            op, nc = g.rand_op(g.cols[t], allow=("calc", "dedup", "proj", "sel", "slice", "sort"))
+            if not op_valid_on(op, g.cols[t]):
+                continue
+            if op[0] == "slice":
+                # raw construction takes the Slice constructor: keep it valid and non-trivial
+                a = 0 if op[1] == "-" else op[1]
+                op = ["slice", a, op[2], "-"]
+            r = g.fresh()
+            g.emit(["rawu", r, op, t])
+            g.cols[r] = frozenset(nc)
+            g.eng[r] = "e0"
+            g.leaves_of[r] = g.leaves_of[t]
+            if t in g.has_chain:
+                g.has_chain.add(r)
+            raws.append(r)
+        elif k < 0.72:
+            t = rng.choice(raws)
+            cands = [u for u in raws if g.cols[u] == g.cols[t] and u not in g.has_chain]
+            if t in g.has_chain or not cands:
+                continue
+            u = rng.choice(cands)
+            r = g.fresh()
+            g.emit(["rawchain", r, t, u])
+            g.cols[r] = g.cols[t]
+            g.eng[r] = "e0"
+            g.leaves_of[r] = g.leaves_of[t] | g.leaves_of[u]
+            g.has_chain.add(r)
+            raws.append(r)
+        elif k < 0.82:
+            t = rng.choice(raws)
+            cands = [u for u in raws if not (g.cols[u] & g.cols[t] & NONKEY) and not (g.leaves_of[u] & g.leaves_of[t])]
+            if not cands:
+                continue
+            u = rng.choice(cands)
+            r = g.fresh()
+            pred = g.pred(g.cols[t] | g.cols[u], 1) if rng.random() < 0.4 and (g.cols[t] | g.cols[u]) else ["plit", "T"]
+            g.emit(["rawjoin", r, t, u, pred])
+            g.cols[r] = g.cols[t] | g.cols[u]
+            g.eng[r] = "e0"
+            g.leaves_of[r] = g.leaves_of[t] | g.leaves_of[u]
+            if t in g.has_chain or u in g.has_chain:
+                g.has_chain.add(r)
+            raws.append(r)
+        else:
+            t = rng.choice(api)
+            op, nc = g.rand_op(g.cols[t])
+            api.append(g.apply(t, op, nc))
+    for r in raws[-5:] + api[-3:]:
+        c = "c" + r[1:]
+        g.emit(["conform", c, r])
+        g.emit(["sqlexec", c])
+        g.emit(["sem", r])
+        if rng.random() < 0.3:
+            g.emit(["conform", "d" + r[1:], c])
+    return g
